@@ -425,6 +425,12 @@ def c20(tier, seed):
     rng.shuffle(cfgs)
     for cfg in cfgs[:(25 if tier == 'quick' else len(cfgs))]:
         cases.append({'universe': uname, 'config': 'ovl', 'state': cfg, 'ops': ops if tier != 'quick' else rng.sample(ops, 30)})
+        present = [v for v, k_, s_ in cfg]
+        if present:
+            pv = rng.choice(present)
+            mut = [(o_, v_) for o_ in ('create_dir', 'write', 'create_dir_all', 'append', 'exists', 'read_dir', 'remove_dir_all') for v_ in u.vars]
+            cases.append({'universe': uname, 'config': 'ovl', 'state': cfg, 'pre': [('remove_dir_all' if dict((a, b) for a, b, c in cfg)[pv] == 'd' else 'remove_file', pv)],
+                          'ops': mut if tier != 'quick' else rng.sample(mut, 14) + [('write', pv), ('create_dir', pv)]})
     ck.add(run_cases(prog, faults.run_fault_case, cases), 'one injected failure at every position k of every underlying call sequence')
     ck.bounds = {'universe': uname, 'faults_per_operation': 1, 'configs': ['VfsPath composites over a failing MemoryFS', 'AltrootFS over it', 'OverlayFS over two of them (fault in either layer)'],
                  'operations': faults.OPS1, 'not_yet': 'copy_file/move_file/copy_dir/move_dir under faults'}
